@@ -62,6 +62,8 @@ func c12Start(k int) *txref.Tx {
 		t.Ins = []txref.In{p2pkhIn(0, 1_000_000)}
 		t.Outs = []txref.Out{std}
 	case 5: // nothing at all
+	case 9: // two data outputs and a standard one
+		t.Outs = []txref.Out{{Sats: 0, Script: append([]byte{0x00, 0x6a, 0x4c, 100}, fill(100, 5)...)}, std, {Sats: 0, Script: append([]byte{0x6a, 0x4c, 150}, fill(150, 6)...)}}
 	case 6, 7, 8: // 250 / 251 / 252 prior inputs: the next ones cross the 252|253 input-count boundary
 		for i := 0; i < 244+k; i++ {
 			t.Ins = append(t.Ins, p2pkhIn(i, 5))
@@ -257,7 +259,7 @@ func c12Check(c c12Case) []rep.Finding { return c12Run(c).fs }
 
 func init() {
 	p := register(&Prop{ID: "C12", Level: "model_checking",
-		Rule: "explicit-state exploration of the funding loop through the real Tx.Fund with the supplier as the nondeterministic environment: every supplier history of length <=4 (quick) / <=5 (thorough; one less from the three start states with 250/251/252 prior inputs, where new inputs cross the 252|253 count boundary) over 13 answers {ErrNoUTXO, wrapped ErrNoUTXO, other error, empty batch, [small], [small,small], [exactly the deficit], [deficit-1], [huge], [huge,small], [31-byte txid], [UTXO with a sequence field], [non-P2PKH UTXO]} (exhaustion after the history ends) x 6 starting transactions (no inputs, prior unsigned/signed input, data output, already funded, empty) x 4 fee quotes; a reference loop with a big-integer fee model runs in lockstep inside the supplier: a state is (start, quote, inputs so far, current deficit), a transition is one supplier call. Oracle: supplier called only with a deficit and with exactly the current one, success iff covered, inputs = previous ++ batches field for field with final sequence, exhaustion -> ErrInsufficientFunds, supplier error propagated, outputs untouched",
+		Rule: "explicit-state exploration of the funding loop through the real Tx.Fund with the supplier as the nondeterministic environment: every supplier history of length <=4 (quick) / <=5 (thorough; one less from the three start states with 250/251/252 prior inputs, where new inputs cross the 252|253 count boundary) over 13 answers {ErrNoUTXO, wrapped ErrNoUTXO, other error, empty batch, [small], [small,small], [exactly the deficit], [deficit-1], [huge], [huge,small], [31-byte txid], [UTXO with a sequence field], [non-P2PKH UTXO]} (exhaustion after the history ends) x 10 starting transactions (no inputs, prior unsigned/signed input, data output, already funded, empty, 250/251/252 prior inputs, two data outputs) x 5 fee quotes (incl. unequal data rate and a rate that is not an exact binary fraction); a reference loop with a big-integer fee model runs in lockstep inside the supplier: a state is (start, quote, inputs so far, current deficit), a transition is one supplier call. Oracle: supplier called only with a deficit and with exactly the current one, success iff covered, inputs = previous ++ batches field for field with final sequence, exhaustion -> ErrInsufficientFunds, supplier error propagated, outputs untouched",
 	})
 	sp := NewSpace(p, "histories", c12Check)
 	p.Run = func(r *rep.Run, thorough bool) {
@@ -265,7 +267,7 @@ func init() {
 		if thorough {
 			maxLen = 5
 		}
-		quotes := []quote{{5, 100, 5, 100}, {1, 1, 1, 1}, {500, 1000, 250, 1000}, {0, 1, 0, 1}}
+		quotes := []quote{{5, 100, 5, 100}, {1, 1, 1, 1}, {500, 1000, 250, 1000}, {0, 1, 0, 1}, {350, 1000, 35, 100}}
 		var mu sync.Mutex
 		states := map[string]struct{}{}
 		transitions, traces := 0, 0
@@ -285,12 +287,12 @@ func init() {
 			}
 			return res.fs
 		}}).Each(r, func(yield func(c12Case)) {
-			for st := 0; st < 9; st++ {
+			for st := 0; st < 10; st++ {
 				for _, q := range quotes {
 					var rec func(h []int)
 					rec = func(h []int) {
 						yield(c12Case{Start: st, Q: q, History: append([]int(nil), h...)})
-						if len(h) == maxLen || (st >= 6 && len(h) == maxLen-1) {
+						if len(h) == maxLen || (st >= 6 && st <= 8 && len(h) == maxLen-1) {
 							return
 						}
 						// answers that end the loop have no continuation
